@@ -97,6 +97,7 @@ def run(prog: Program, L: Ledger) -> None:
     L.rule("T7", "per-move state that is not in the file but derived on load (unique_labels, recomputed by set_labels) is only ever produced by that same function during a run")
     L.rule("T8", "state outside the file — the calculator's cached results — never decides what a run reports: after every accepted / rejected / failed trial the cache either belongs to the current configuration or is recomputed (a restarted run starts with an EMPTY cache; whatever a revert 'restores' into it in place is lost there)")
     _check_cache_independence(prog, L)
+    L.rule("T9", "every component that can appear in a restart file writes its state unconditionally (or under a guard that loses nothing: the reader's default is the guarded value)")
     L.rule("T5", "every class name reachable from a driver's dictionary is registered and admitted by the lookup base at its reading site")
     L.assume(asetab.validate_json_todict())
 
@@ -238,6 +239,25 @@ def run(prog: Program, L: Ledger) -> None:
             L.check(r is not None and r.resolved == ci, "T5", ci.name, ci.where,
                     f"{fam} `{ci.name}` can appear in a restart file but is not registered under its name",
                     f"restart of a simulation using {ci.name}: get_class({ci.name!r}) -> KeyError", ci.name)
+            # T9: what the component writes into the file does not depend on its values (a key written only "when it
+            # differs from the default" is absent otherwise, and the resumed object keeps what ITS constructor derives)
+            sch9 = emitted_schema(prog, ci)
+
+            def cond_keys(dv, path=""):
+                for k in sorted(dv.conditional):
+                    yield path + k, dv.origin.get(k), dv.cond_tests.get(k)
+                for k, v in dv.items.items():
+                    if isinstance(v, DV):
+                        yield from cond_keys(v, path + k + ".")
+
+            if sch9 is not None:
+                ck = [(kp, org) for kp, org, tst in cond_keys(sch9) if not c08._lossless_default_guard(prog, ci, tst)]
+                for kpath, org in ck:
+                    L.violation("T9", f"{ci.name}.{kpath}:conditional", org.where if org else ci.where,
+                                f"{ci.name}.to_dict writes `{kpath}` into the restart file only under a condition: when it is false the resumed {ci.name} keeps whatever its constructor sets (not necessarily the value the running object had)",
+                                f"a run whose {ci.name} has `{kpath.split('.')[-1]}` at the guarded value while its constructor derives another one resumes with a different value: the remaining steps differ", kpath)
+                if not ck:
+                    L.ok("T9", f"{ci.name}:unconditional-emission", ci.where)
     L.floor("classes reachable from a driver dictionary", n5, 20)
 
 
